@@ -56,13 +56,36 @@ def quiet_logging():
 
 class Ports:
     """Loopback ports for one worker process, outside the kernel's ephemeral
-    range (so that nobody is handed 'our' port between stop() and start())."""
+    range (so that nobody is handed 'our' port between stop() and start()).
 
-    LOW, HIGH, SLOT = 12000, 31000, 24
+    The range is cut into slots of SLOT ports; a process owns one slot for
+    its whole life, claimed with flock() on a lock file (released by the
+    kernel when the process ends), so concurrently running workers of any
+    check never share a port."""
+
+    LOW, HIGH, SLOT = 12000, 31000, 16
 
     def __init__(self):
+        import fcntl
+        import tempfile
         nslots = (self.HIGH - self.LOW) // self.SLOT
-        self.base = self.LOW + (os.getpid() % nslots) * self.SLOT
+        d = os.path.join(tempfile.gettempdir(), 'vf-listener-ports')
+        os.makedirs(d, exist_ok=True)
+        self.lockfile = None
+        first = os.getpid() % nslots
+        for k in range(nslots):
+            slot = (first + k) % nslots
+            fh = open(os.path.join(d, 'slot-%d.lock' % slot), 'a+')
+            try:
+                fcntl.flock(fh, fcntl.LOCK_EX | fcntl.LOCK_NB)
+            except OSError:
+                fh.close()
+                continue
+            self.lockfile = fh          # keep open: holds the lock
+            self.base = self.LOW + slot * self.SLOT
+            break
+        if self.lockfile is None:
+            raise RuntimeError('no free port slot')
         self.next = 0
 
     @staticmethod
@@ -81,17 +104,58 @@ class Ports:
             s.close()
 
     def get(self):
-        for _ in range(self.SLOT * 40):
+        for _ in range(self.SLOT * 3):
             port = self.base + self.next % self.SLOT
             self.next += 1
-            if self.next % self.SLOT == 0:
-                # own slot exhausted/occupied: wander through other slots
-                self.base = self.LOW + (
-                    (self.base - self.LOW + 7 * self.SLOT) %
-                    (self.HIGH - self.LOW - self.SLOT))
             if self.bindable(port):
                 return port
-        raise RuntimeError('no free loopback port found')
+            time.sleep(0.01)
+        raise RuntimeError('no free loopback port in the slot at %d'
+                           % self.base)
+
+
+def listener_of_port(port):
+    """Who listens on 127.0.0.1:port?  'self', 'other' or None (nobody).
+    Decided from /proc/net/tcp and /proc/self/fd, so that a foreign process
+    on 'our' port is never mistaken for a socket the listener left behind."""
+    want = '0100007F:%04X' % port
+    inodes = set()
+    try:
+        with open('/proc/net/tcp', encoding='ascii') as f:
+            next(f)
+            for line in f:
+                parts = line.split()
+                if parts[3] == '0A' and parts[1] in (
+                        want, '00000000:%04X' % port):
+                    inodes.add(parts[9])
+    except (OSError, StopIteration, IndexError):
+        return None
+    if not inodes:
+        return None
+    try:
+        for fd in os.listdir('/proc/self/fd'):
+            try:
+                link = os.readlink('/proc/self/fd/' + fd)
+            except OSError:
+                continue
+            if link.startswith('socket:[') and link[8:-1] in inodes:
+                return 'self'
+    except OSError:
+        pass
+    return 'other'
+
+
+def exc_key(exc):
+    """Mechanism key of an exception: type + innermost repository frame +
+    text of the raising line.  For pywbem's own error classes the runner's
+    key would embed the message (port numbers, request text); use type +
+    raising function instead."""
+    from vf.runner import exc_key as runner_exc_key, repo_frame
+    if type(exc).__module__.startswith('pywbem'):
+        fr = repo_frame(exc)
+        return 'exc=%s@%s' % (type(exc).__name__,
+                              '%s.%s' % (fr[2][:-3], fr[0]) if fr else '?')
+    return runner_exc_key(exc)
 
 
 def connect_refused(port):
